@@ -119,7 +119,8 @@ def mc_configs(pid, tier):
             # UDP socket + multicast membership + background tasks, both hosts crashable, two cycles
             ("mc_crash_udp", sc(Ops=UDP, Targets={1, 2}, MaxOps=4 if not q else 3, MaxFaults=2, MaxSteps=4 if not q else 3)),
             # latency changed between sends: segments overtake each other, reorder buffer, capacity 2
-            ("mc_crash_reorder", sc(Ops={"listen", "accept", "connect", "write", "read"}, Faults={"crash"}, Targets={1},
+            ("mc_crash_reorder", sc(Ops={"listen", "accept", "connect", "write"} | (set() if q else {"read"}),
+                                    Faults={"crash"}, Targets={1},
                                     Writers={2}, Early=True, Cap=2, LatChoices={1, 3}, MaxLat=2, MaxOps=6 if q else 7,
                                     MaxFaults=1, MaxSteps=6 if q else 7)),
             # connector's turn first (Lis = 2): accept() returns at once and the stream is used in the same turn
@@ -165,7 +166,11 @@ def gen_configs(pid, tier):
     if pid == "C04":
         cfgs = [("gen_crash_listener", sc(Ops=TCP, Targets={1}, Lis=1, MaxOps=4, MaxFaults=1, MaxSteps=5)),
                 ("gen_crash_connector", sc(Ops=TCP, Targets={2}, Lis=1, MaxOps=4, MaxFaults=1, MaxSteps=4)),
-                ("gen_crash_udp", sc(Ops=UDP, Targets={1}, MaxOps=3, MaxFaults=1, MaxSteps=4)),
+                ("gen_crash_udp_v6", sc(Ops=UDP, Targets={1}, MaxOps=3, MaxFaults=1, MaxSteps=3)),
+                # the crashed host is the sender: capacity segments unread at the peer when the FIN arrives,
+                # the peer reads afterwards (data, then end-of-file)
+                ("gen_crash_sender", sc(Ops={"listen", "accept", "connect", "write", "read"}, Faults={"crash"},
+                                        Targets={1}, Writers={1}, Early=True, MaxOps=6, MaxFaults=1, MaxSteps=6)),
                 ("gen_crash_conn_first", sc(Ops=TCP, Targets={1}, Lis=2, MaxOps=4, MaxFaults=1, MaxSteps=4)),
                 # a writer parked for send credit when the reader's host crashes (needs 5 operations)
                 ("gen_crash_writer", sc(Ops={"listen", "accept", "connect", "write"}, Faults={"crash"}, Targets={1},
@@ -196,7 +201,11 @@ def gen_configs(pid, tier):
                                              Faults={"crash", "bounce"}, Targets={1}, Writers={2}, Early=True, Cap=2,
                                              LatChoices={1, 3}, MaxLat=2, MaxOps=6, MaxFaults=1, MaxSteps=6)),
                     ("gen_crash_regex", sc(Ops={"bg", "ubind"}, Faults={"crash", "bounce"}, Targets={1, 2}, MaxOps=2,
-                                           MaxFaults=3, MaxSteps=3))]
+                                           MaxFaults=3, MaxSteps=3)),
+                    ("gen_crash_udp_v6", sc(Ops=UDP, Targets={1, 2}, MaxOps=3, MaxFaults=2, MaxSteps=4)),
+                    ("gen_crash_sender", sc(Ops={"listen", "accept", "connect", "write", "read"},
+                                            Faults={"crash", "bounce"}, Targets={1}, Writers={1}, Early=True, Cap=2,
+                                            MaxOps=7, MaxFaults=1, MaxSteps=7))]
         return cfgs
     raise ValueError(pid)
 
@@ -205,7 +214,7 @@ def random_configs(pid, tier, seed):
     q = tier == "quick"
     if pid == "C04":
         runs = 30 if q else 150
-        base = [dict(tick=2, lat=1, cap=8, steps=14), dict(tick=1, lat=2, cap=8, steps=16)]
+        base = [dict(tick=2, lat=1, cap=8, steps=14), dict(tick=1, lat=2, cap=8, steps=16, ip=6)]
         if not q:
             base += [dict(tick=3, lat=1, cap=8, steps=24), dict(tick=2, lat=3, cap=8, steps=20)]
         return [dict(c, runs=runs, seed=seed * 131 + i) for i, c in enumerate(base)]
@@ -276,13 +285,16 @@ def impl_trace_consts(pid, a):
 
 def driver_args(pid, a):
     if is_crash(pid):
-        return [f"tick={a['tick']}", f"lat={a['lat']}", f"cap={a['cap']}", f"lis={a.get('lis', 1)}"]
+        return [f"tick={a['tick']}", f"lat={a['lat']}", f"cap={a['cap']}", f"lis={a.get('lis', 1)}",
+                f"ip={a.get('ip', 4)}"]
     return [f"tick={a['tick']}", f"duration={a['duration']}", f"epoch={a['epoch']}"]
 
 
-def args_of_consts(pid, c):
+def args_of_consts(pid, c, name=""):
     if is_crash(pid):
-        return dict(tick=c["Tick"], lat=c["LatSteps"], cap=c["Cap"], lis=c["Lis"])
+        # configurations whose name ends in _v6 are executed on an IPv6 simulation (sockets bind `::`,
+        # groups are joined with join_multicast_v6); the specs do not depend on the address family
+        return dict(tick=c["Tick"], lat=c["LatSteps"], cap=c["Cap"], lis=c["Lis"], ip=6 if name.endswith("_v6") else 4)
     return dict(tick=c["Tick"], duration=c["Duration"], epoch=c["Epoch"])
 
 
@@ -348,12 +360,14 @@ def judge_divergence(ck, pid, name, consts, d):
     tr = d.get("trace")
     if not tr or d.get("what") == "panic":
         ck.violation({"kind": "behaviour", "property": pid, "config": name, "consts": jsonable(consts),
+                      "args": args_of_consts(pid, consts, name),
                       "behaviour": d.get("behaviour"), "divergence": {k: v for k, v in d.items() if k != "behaviour"}})
         return
-    pr, _ = validate_trace(pid, tr, args_of_consts(pid, consts), f"{pid}_div", impl=False)
+    pr, _ = validate_trace(pid, tr, args_of_consts(pid, consts, name), f"{pid}_div", impl=False)
     ck.add_tlc(pr, "trace_divergent")
     if rejected(pr):
         ck.violation({"kind": "behaviour", "property": pid, "config": name, "consts": jsonable(consts),
+                      "args": args_of_consts(pid, consts, name),
                       "behaviour": d.get("behaviour"), "divergence": {k: v for k, v in d.items() if k != "behaviour"},
                       "violated_clause": pr.violated, "unmatched": pr.unmatched})
     else:
@@ -490,7 +504,7 @@ def run(pid, tier, seed, replay=None):
             raise MachineryError(f"behaviour generation {name} failed ({r.violated or r.error or 'timeout'})")
         behs = vlib.extract_replays(r.stdout)
         ck.add_tlc(r, name)
-        s, out = replay_behaviours(pid, behs, args_of_consts(pid, consts), w, name)
+        s, out = replay_behaviours(pid, behs, args_of_consts(pid, consts, name), w, name)
         log(f"[{pid}] {name}: {len(behs)} TLC behaviours in {r.wall:.0f}s, {out}")
         ck.traces += s["behaviours"]
         ck.evaluations += s["behaviours"]
@@ -592,7 +606,7 @@ def do_replay(ck, path):
     pid = ck.pid
     w = vlib.workdir(f"{pid}_replay")
     if rp["kind"] in ("behaviour", "witness"):
-        a = rp["args"] if "args" in rp else args_of_consts(pid, rp["consts"])
+        a = rp["args"] if "args" in rp else args_of_consts(pid, rp["consts"], rp.get("config", ""))
         keep = os.path.join(w, "replay.ndjson")
         s, out = replay_behaviours(pid, [json.dumps(rp["behaviour"])], a, w, "replay", keep=keep, keepn=1)
         ck.traces = ck.evaluations = 1
